@@ -3,7 +3,7 @@
 # tools/mutlab.sh try <patch> [ID ...]   apply patch in the scratch worktree, run quick checks there, restore
 # tools/mutlab.sh teardown         remove everything again
 # Keeps /repo and /verif/evidence untouched, so it can run while other checks use /repo.
-LAB=/tmp/mutlab
+LAB=${LAB:-/tmp/mutlab}
 case "$1" in
 setup)
   rm -rf "$LAB"; mkdir -p "$LAB/verif"
